@@ -550,10 +550,25 @@ func (h *handler1) handleConnect(ctx context.Context, snConnect *snPkts1.Connect
 		return h.snSend(reply)
 	}
 
-	if h.state.Get() == util.StateAwake {
+	// CONNECT in the asleep and awake states only signalizes the client's
+	// transition to the active state, it does not start a new connection.
+	// See doc/specification-interpretation.md
+	if state := h.state.Get(); state == util.StateAwake || state == util.StateAsleep {
+		h.sendMutex.Lock()
+		defer h.sendMutex.Unlock()
 		h.setState(util.StateActive)
 		reply := snPkts1.NewConnack(snPkts1.RC_ACCEPTED)
-		return h.snSend(reply)
+		if err := h.snSendLocked(reply); err != nil {
+			return err
+		}
+		// Deliver packets buffered while the client was asleep.
+		for _, m2 := range h.pktBuffer {
+			if err := h.snSendLocked(m2); err != nil {
+				return err
+			}
+		}
+		h.pktBuffer = nil
+		return nil
 	}
 
 	// The MQTT-SN specification does not explicitly forbid zero keepalive
@@ -824,7 +839,13 @@ func (h *handler1) handleMqttSn(ctx context.Context, pkt snPkts.Packet) error {
 				}
 			}
 			h.pktBuffer = nil
-			return h.snSendLocked(snPkts1.NewPingresp())
+			if err := h.snSendLocked(snPkts1.NewPingresp()); err != nil {
+				return err
+			}
+			// The client goes back to sleep after receiving PINGRESP.
+			// See MQTT-SN specification v. 1.2, chapter 6.14.
+			h.setState(util.StateAsleep)
+			return nil
 		} else {
 			mqPkt := mqPkts.NewControlPacket(mqPkts.Pingreq).(*mqPkts.PingreqPacket)
 			return h.mqttSend(mqPkt)
@@ -850,12 +871,13 @@ func (h *handler1) handleMqttSn(ctx context.Context, pkt snPkts.Packet) error {
 			}
 			h.sendMutex.Lock()
 			defer h.sendMutex.Unlock()
-			h.pktBuffer = nil
+			// The reply must not be queued, even if the client is already
+			// asleep (i.e. it is only renewing its sleep duration).
+			// Packets buffered for the client so far stay in the buffer.
 			m2 := snPkts1.NewDisconnect(0)
-			if err := h.snSendLocked(m2); err != nil {
+			if err := h.snWrite(m2); err != nil {
 				return err
 			}
-			// Must be set after sending otherwise the packet would be queued...
 			h.setState(util.StateAsleep)
 			return nil
 		}
@@ -939,6 +961,11 @@ func (h *handler1) snSendLocked(pkt snPkts.Packet) error {
 		// TODO: Potentional serialization errors will be delayed!
 		return nil
 	}
+	return h.snWrite(pkt)
+}
+
+// snWrite sends the packet to the client regardless of the client's state.
+func (h *handler1) snWrite(pkt snPkts.Packet) error {
 	h.log.Debug("<- %v", pkt)
 	buf, err := pkt.Pack()
 	if err != nil {
